@@ -1,5 +1,7 @@
 import ComposeVerif.Model.EnvLayers
+import ComposeVerif.Model.EnvLayersOrder
 import ComposeVerif.Spec.EnvLayers
+import ComposeVerif.Props.C07
 /-! Helper lemmas for C16: association lists, `parseLines` / `loadEnvFiles` against the specification. -/
 namespace CV.EnvLayers
 open CV.EnvLayers.Spec
@@ -228,7 +230,11 @@ theorem parseLines_distinct (look : Look) (ls : List Line) (out res : List (Key 
   | nil => simp only [parseLines, Except.ok.injEq] at h; exact h ▸ hd
   | cons x r ih =>
     cases x with
-    | assign k v => exact ih _ (distinct_insert _ _ _ hd) h
+    | assign k v =>
+      simp only [parseLines] at h
+      cases hv : evalValue (withFile look out) v with
+      | ok val => rw [hv] at h; exact ih _ (distinct_insert _ _ _ hd) h
+      | error e => rw [hv] at h; cases h
     | bare k =>
       simp only [parseLines] at h
       cases hl : look k with
@@ -236,8 +242,41 @@ theorem parseLines_distinct (look : Look) (ls : List Line) (out res : List (Key 
       | none => rw [hl] at h; exact ih _ hd h
     | bad => simp [parseLines] at h
 
+/-- the model's evaluation of a well-formed value (C07's model of `template.Substitute` on its rendering) is what
+    the grammar says (C07's `subst_render`) -/
+theorem evalValue_spec (look : Look) (v : List Seg) (val : Str) (hwf : CV.Template.WF v = true)
+    (h : evalValue look v = .ok val) : val = specValue look v := by
+  unfold evalValue at h
+  rw [CV.Template.subst_render look v hwf] at h
+  unfold CV.Template.evalOut at h
+  unfold specValue
+  cases he : CV.Template.evalL look v with
+  | ok s => rw [he] at h; simp only [Except.ok.injEq] at h; exact h.symm
+  | error e => rw [he] at h; cases h
+
+theorem evalValue_never_panics (look : Look) (v : List Seg) : evalValue look v ≠ .error .panic := by
+  unfold evalValue
+  cases h : CV.Template.subst look (CV.Template.renderL v) with
+  | ok s => simp
+  | err e => simp
+  | panic p => exact absurd h (CV.Template.subst_never_panics look _ p)
+
+/-- decidable form of `WFLines` -/
+def wfLinesB (ls : List Line) : Bool :=
+  ls.all fun l => match l with
+    | .assign _ v => CV.Template.WF v
+    | _ => true
+
+theorem wfLines_of_B (ls : List Line) (h : wfLinesB ls = true) : WFLines ls := by
+  intro k v hm
+  have := List.all_eq_true.1 h _ hm
+  simpa using this
+
+theorem wfLines_cons (x : Line) (r : List Line) (h : WFLines (x :: r)) : WFLines r :=
+  fun k v hm => h k v (List.mem_cons_of_mem _ hm)
+
 /-- the forward loop of the parser computes the backward-recursive specification -/
-theorem parseLines_spec (look : Look) (ls : List Line) (out res : List (Key × Str))
+theorem parseLines_spec (look : Look) (ls : List Line) (out res : List (Key × Str)) (hwf : WFLines ls)
     (h : parseLines look ls out = .ok res) :
     ∀ k, lookup k res = fileValRevFrom look (fun n => lookup n out) ls.reverse k := by
   induction ls generalizing out with
@@ -245,19 +284,25 @@ theorem parseLines_spec (look : Look) (ls : List Line) (out res : List (Key × S
   | cons x r ih =>
     intro k
     rw [List.reverse_cons, fileValRevFrom_append]
+    have hwr := wfLines_cons x r hwf
     cases x with
     | assign k' v =>
-      have := ih _ h k
-      rw [this]
-      congr 1
-      funext n
-      simp only [fileValRevFrom, lookup_insert, withFile_eq]
+      simp only [parseLines] at h
+      cases hv : evalValue (withFile look out) v with
+      | error e => rw [hv] at h; cases h
+      | ok val =>
+        rw [hv] at h
+        rw [ih _ hwr h k]
+        congr 1
+        funext n
+        have := evalValue_spec _ v val (hwf k' v List.mem_cons_self) hv
+        simp only [fileValRevFrom, lookup_insert, this, withFile_eq]
     | bare k' =>
       simp only [parseLines] at h
       cases hl : look k' with
       | some v =>
         rw [hl] at h
-        rw [ih _ h k]
+        rw [ih _ hwr h k]
         congr 1
         funext n
         simp only [fileValRevFrom, lookup_insert]
@@ -266,7 +311,7 @@ theorem parseLines_spec (look : Look) (ls : List Line) (out res : List (Key × S
         · simp [e]
       | none =>
         rw [hl] at h
-        rw [ih _ h k]
+        rw [ih _ hwr h k]
         congr 1
         funext n
         simp only [fileValRevFrom]
@@ -275,29 +320,30 @@ theorem parseLines_spec (look : Look) (ls : List Line) (out res : List (Key × S
         · simp [e]
     | bad => simp [parseLines] at h
 
-theorem parseLines_ok_iff (look : Look) (ls : List Line) (out : List (Key × Str)) :
-    (∃ res, parseLines look ls out = .ok res) ↔ Line.bad ∉ ls := by
-  induction ls generalizing out with
-  | nil => simp [parseLines]
-  | cons x r ih =>
-    cases x with
-    | assign k v => simp [parseLines, ih]
-    | bare k =>
-      simp only [parseLines]
-      cases look k <;> simp [ih]
-    | bad => simp [parseLines]
-
+/-- a file is rejected only for a rejected line or a value whose substitution fails -/
 theorem parseLines_err (look : Look) (ls : List Line) (out : List (Key × Str)) (e : Err)
-    (h : parseLines look ls out = .error e) : e = .parse := by
+    (h : parseLines look ls out = .error e) : e = .parse ∨ e = .template := by
   induction ls generalizing out with
   | nil => simp [parseLines] at h
   | cons x r ih =>
     cases x with
-    | assign k v => exact ih _ h
+    | assign k v =>
+      simp only [parseLines] at h
+      cases hv : evalValue (withFile look out) v with
+      | ok val => rw [hv] at h; exact ih _ h
+      | error e' =>
+        rw [hv] at h
+        simp only [Except.error.injEq] at h
+        subst h
+        unfold evalValue at hv
+        cases hs : CV.Template.subst (withFile look out) (CV.Template.renderL v) with
+        | ok s => rw [hs] at hv; cases hv
+        | err _ => rw [hs] at hv; simp only [Except.error.injEq] at hv; exact Or.inr hv.symm
+        | panic p => exact absurd hs (CV.Template.subst_never_panics _ _ p)
     | bare k =>
       simp only [parseLines] at h
       cases hl : look k <;> rw [hl] at h <;> exact ih _ h
-    | bad => simp only [parseLines, Except.error.injEq] at h; exact h.symm
+    | bad => simp only [parseLines, Except.error.injEq] at h; exact Or.inl h.symm
 
 /-! ### the loop over env files against `filesValRevFrom` -/
 
@@ -329,25 +375,34 @@ theorem envChain_eq (penv acc : List (Key × Str)) :
 /-- what a successful `loadEnvFile` did -/
 theorem loadEnvFile_ok (fs : FS) (f : EnvFile) (look : Look) (vars : List (Key × Str))
     (h : loadEnvFile fs f look = .ok vars) :
-    (fs f.path = none ∧ f.required = false ∧ vars = []) ∨
+    (Missing fs f.path ∧ f.required = false ∧ vars = []) ∨
     (∃ ls, fs f.path = some (.file ls) ∧ f.format = [] ∧ parseLines look ls [] = .ok vars) := by
   unfold loadEnvFile at h
   cases hp : fs f.path with
   | none =>
     rw [hp] at h
     cases hr : f.required <;> simp [hr] at h
-    exact Or.inl ⟨rfl, rfl, h⟩
+    exact Or.inl ⟨Or.inl hp, rfl, h⟩
   | some nd =>
     rw [hp] at h
-    simp only [loadMappingFile, hp] at h
     cases nd with
-    | notdir => simp at h
-    | dir => by_cases hf : f.format = [] <;> simp [hf] at h
+    | notdir =>
+      cases hr : f.required <;> simp [hr] at h
+      exact Or.inl ⟨Or.inr hp, rfl, h⟩
+    | dir =>
+      simp only [loadMappingFile, hp] at h
+      by_cases hf : f.format = [] <;> simp [hf] at h
     | file ls =>
+      simp only [loadMappingFile, hp] at h
       by_cases hf : f.format = []
       · simp only [hf, ne_eq, not_true_eq_false, if_false] at h
         exact Or.inr ⟨ls, rfl, hf, h⟩
       · simp [hf] at h
+
+theorem loadEnvFile_missing (fs : FS) (f : EnvFile) (look : Look) (hm : Missing fs f.path) :
+    loadEnvFile fs f look = if f.required then .error .notFound else .ok [] := by
+  unfold loadEnvFile
+  rcases hm with hm | hm <;> rw [hm]
 
 theorem loadLabelFile_ok (fs : FS) (p : Str) (look : Look) (vars : List (Key × Str))
     (h : loadLabelFile fs p look = .ok vars) :
@@ -357,19 +412,23 @@ theorem loadLabelFile_ok (fs : FS) (p : Str) (look : Look) (vars : List (Key × 
   | none => rw [hp] at h; simp at h
   | some nd =>
     rw [hp] at h
-    simp only [loadMappingFile, hp] at h
     cases nd with
     | notdir => simp at h
-    | dir => simp at h
+    | dir => simp [loadMappingFile, hp] at h
     | file ls =>
-      simp only [ne_eq, not_true_eq_false, if_false] at h
+      simp only [loadMappingFile, hp, ne_eq, not_true_eq_false, if_false] at h
       exact ⟨ls, rfl, h⟩
+
+theorem loadLabelFile_missing (fs : FS) (p : Str) (look : Look) (hm : Missing fs p) :
+    loadLabelFile fs p look = .error .notFound := by
+  unfold loadLabelFile
+  rcases hm with hm | hm <;> rw [hm]
 
 theorem distinct_nil {β : Type} : Distinct ([] : List (Key × β)) := by simp [Distinct]
 
-theorem lookup_parsed (look : Look) (ls : List Line) (vars : List (Key × Str))
+theorem lookup_parsed (look : Look) (ls : List Line) (vars : List (Key × Str)) (hwf : WFLines ls)
     (h : parseLines look ls [] = .ok vars) (k : Key) : lookup k vars = fileVal look ls k :=
-  parseLines_spec look ls [] vars h k
+  parseLines_spec look ls [] vars hwf h k
 
 theorem lookup_overrideBy_str (k : Key) (m other : List (Key × Str)) (hd : Distinct other) :
     lookup k (overrideBy m other) = orElse (lookup k other) (lookup k m) := by
@@ -378,7 +437,7 @@ theorem lookup_overrideBy_str (k : Key) (m other : List (Key × Str)) (hd : Dist
   cases lookup k other <;> rfl
 
 theorem loadEnvFiles_spec (penv : List (Key × Str)) (fs : FS) (efs : List EnvFile) (acc res : List (Key × Str))
-    (hd : Distinct acc) (h : loadEnvFiles penv fs efs acc = .ok res) :
+    (hwf : WFFS fs) (hd : Distinct acc) (h : loadEnvFiles penv fs efs acc = .ok res) :
     Distinct res ∧ ∀ k, lookup k res = filesValRevFrom penv (fun n => lookup n acc) (envContents fs efs).reverse k := by
   induction efs generalizing acc with
   | nil =>
@@ -397,7 +456,7 @@ theorem loadEnvFiles_spec (penv : List (Key × Str)) (fs : FS) (efs : List EnvFi
         have := ih acc hd h
         refine ⟨this.1, fun k => ?_⟩
         rw [this.2 k]
-        simp [envContents, hp]
+        rcases hp with hp | hp <;> simp [envContents, hp]
       · have hdv : Distinct vars := parseLines_distinct _ _ _ _ distinct_nil hparse
         have := ih _ (distinct_overrideBy acc vars hd) h
         refine ⟨this.1, fun k => ?_⟩
@@ -407,10 +466,10 @@ theorem loadEnvFiles_spec (penv : List (Key × Str)) (fs : FS) (efs : List EnvFi
         congr 1
         funext n
         simp only [filesValRevFrom]
-        rw [lookup_overrideBy_str n acc vars hdv, lookup_parsed _ _ _ hparse, envChain_eq]
+        rw [lookup_overrideBy_str n acc vars hdv, lookup_parsed _ _ _ (hwf _ _ hp) hparse, envChain_eq]
 
 theorem loadLabelFiles_spec (fs : FS) (paths : List Str) (acc res : List (Key × Str))
-    (hd : Distinct acc) (h : loadLabelFiles fs paths acc = .ok res) :
+    (hwf : WFFS fs) (hd : Distinct acc) (h : loadLabelFiles fs paths acc = .ok res) :
     Distinct res ∧ ∀ k, lookup k res = labelFilesValRevFrom (fun n => lookup n acc) (labelContents fs paths).reverse k := by
   induction paths generalizing acc with
   | nil =>
@@ -434,7 +493,7 @@ theorem loadLabelFiles_spec (fs : FS) (paths : List Str) (acc res : List (Key ×
       congr 1
       funext n
       simp only [labelFilesValRevFrom]
-      rw [lookup_overrideBy_str n acc vars hdv, lookup_parsed _ _ _ hparse]
+      rw [lookup_overrideBy_str n acc vars hdv, lookup_parsed _ _ _ (hwf _ _ hp) hparse]
       rfl
 
 /-! ### snoc forms, lines that do not mention a key, appending file lists -/
@@ -609,6 +668,110 @@ theorem loadEnvFiles_congr_penv (penv penv' : List (Key × Str)) (fs : FS) (h : 
     cases loadEnvFile fs f (envChain penv' acc) with
     | error _ => rfl
     | ok vars => exact ih _
+
+/-! ### any iteration order -/
+
+theorem MapEq.refl {β : Type} (m : List (Key × β)) : MapEq m m := fun _ => rfl
+theorem MapEq.symm {β : Type} {m m' : List (Key × β)} (h : MapEq m m') : MapEq m' m := fun k => (h k).symm
+theorem MapEq.trans {β : Type} {a b c : List (Key × β)} (h1 : MapEq a b) (h2 : MapEq b c) : MapEq a c :=
+  fun k => (h1 k).trans (h2 k)
+
+theorem mapEq_of_perm {β : Type} (m m' : List (Key × β)) (hd : Distinct m) (hp : m.Perm m') : MapEq m m' :=
+  fun k => lookup_perm k m m' hd hp
+
+/-- `OverrideBy` respects map equality of the receiver and any listing of a Go map argument -/
+theorem overrideBy_congr {β : Type} (m m0 other other' : List (Key × β)) (hm : MapEq m m0) (hd : Distinct other)
+    (hp : other.Perm other') : MapEq (overrideBy m other') (overrideBy m0 other) := by
+  intro k
+  rw [lookup_overrideBy k m other' (distinct_perm _ _ hd hp), lookup_overrideBy k m0 other hd,
+    ← lookup_perm k other other' hd hp, hm k]
+
+theorem overrideBy_congr_arg {β : Type} (m other other2 : List (Key × β)) (hd : Distinct other) (hd2 : Distinct other2)
+    (h : MapEq other other2) : MapEq (overrideBy m other) (overrideBy m other2) := by
+  intro k
+  rw [lookup_overrideBy k m other hd, lookup_overrideBy k m other2 hd2, h k]
+
+theorem rangeOverride_sound {β : Type} (m m0 other res : List (Key × β)) (hm : MapEq m m0) (hd : Distinct other)
+    (h : RangeOverride m other res) : Distinct res ∧ MapEq res (overrideBy m0 other) := by
+  obtain ⟨other', hp, hdr, hres⟩ := h
+  exact ⟨hdr, hres.trans (overrideBy_congr m m0 other other' hm hd hp)⟩
+
+theorem rangeResolve_sound (look : Look) (m res : List (Key × Option Str)) (hd : Distinct m)
+    (h : RangeResolve look m res) : Distinct res ∧ MapEq res (resolveMWE look m) := by
+  obtain ⟨m', hp, hdr, hres⟩ := h
+  refine ⟨hdr, fun k => ?_⟩
+  rw [hres k, lookup_resolveMWE, lookup_resolveMWE, ← lookup_perm k m m' hd hp]
+
+theorem mapEq_toMWE (a b : List (Key × Str)) (h : MapEq a b) : MapEq (toMWE a) (toMWE b) := by
+  intro k; rw [lookup_toMWE, lookup_toMWE, h k]
+
+theorem loadEnvFile_distinct (fs : FS) (f : EnvFile) (look : Look) (vars : List (Key × Str))
+    (h : loadEnvFile fs f look = .ok vars) : Distinct vars := by
+  rcases loadEnvFile_ok fs f look vars h with ⟨_, _, hv⟩ | ⟨ls, _, _, hp⟩
+  · subst hv; exact distinct_nil
+  · exact parseLines_distinct _ _ _ _ distinct_nil hp
+
+theorem loadLabelFile_distinct (fs : FS) (p : Str) (look : Look) (vars : List (Key × Str))
+    (h : loadLabelFile fs p look = .ok vars) : Distinct vars := by
+  obtain ⟨ls, _, hp⟩ := loadLabelFile_ok fs p look vars h
+  exact parseLines_distinct _ _ _ _ distinct_nil hp
+
+theorem envChain_congr (penv acc acc0 : List (Key × Str)) (h : MapEq acc acc0) : envChain penv acc = envChain penv acc0 := by
+  funext n; simp only [envChain, h n]
+
+theorem labelChain_congr (acc acc0 : List (Key × Str)) (h : MapEq acc acc0) : labelChain acc = labelChain acc0 := by
+  funext n; simp only [labelChain, h n]
+
+/-- the list-order loop, generically (`loadEnvFiles` / `loadLabelFiles` are instances) -/
+def filesLoop {α : Type} (load : α → Look → Except Err (List (Key × Str))) (chain : List (Key × Str) → Look) :
+    List α → List (Key × Str) → Except Err (List (Key × Str))
+  | [], acc => .ok acc
+  | f :: r, acc =>
+    match load f (chain acc) with
+    | .error e => .error e
+    | .ok vars => filesLoop load chain r (overrideBy acc vars)
+
+theorem loadEnvFiles_eq_filesLoop (penv : List (Key × Str)) (fs : FS) (efs : List EnvFile) (acc : List (Key × Str)) :
+    loadEnvFiles penv fs efs acc = filesLoop (loadEnvFile fs) (envChain penv) efs acc := by
+  induction efs generalizing acc with
+  | nil => rfl
+  | cons f r ih =>
+    simp only [loadEnvFiles, filesLoop]
+    cases loadEnvFile fs f (envChain penv acc) with
+    | error e => rfl
+    | ok vars => exact ih _
+
+theorem loadLabelFiles_eq_filesLoop (fs : FS) (ps : List Str) (acc : List (Key × Str)) :
+    loadLabelFiles fs ps acc = filesLoop (loadLabelFile fs) labelChain ps acc := by
+  induction ps generalizing acc with
+  | nil => rfl
+  | cons f r ih =>
+    simp only [loadLabelFiles, filesLoop]
+    cases loadLabelFile fs f (labelChain acc) with
+    | error e => rfl
+    | ok vars => exact ih _
+
+/-- how an any-order outcome relates to the list-order outcome -/
+def Agrees {β : Type} (a b : Except Err (List (Key × β))) : Prop :=
+  match a, b with
+  | .ok x, .ok y => MapEq x y
+  | .error e, .error e' => e = e'
+  | _, _ => False
+
+theorem filesRun_agrees {α : Type} (load : α → Look → Except Err (List (Key × Str))) (chain : List (Key × Str) → Look)
+    (hchain : ∀ a b, MapEq a b → chain a = chain b)
+    (hdist : ∀ f look vars, load f look = .ok vars → Distinct vars)
+    (fsl : List α) (acc : List (Key × Str)) (res : Except Err (List (Key × Str)))
+    (h : FilesRun load chain fsl acc res) (acc0 : List (Key × Str)) (hacc : MapEq acc acc0) :
+    Agrees res (filesLoop load chain fsl acc0) := by
+  induction h generalizing acc0 with
+  | nil acc => exact hacc
+  | fail f r acc e hl =>
+    simp only [filesLoop, ← hchain _ _ hacc, hl]
+    rfl
+  | step f r acc vars acc1 res hl ho _ ih =>
+    simp only [filesLoop, ← hchain _ _ hacc, hl]
+    exact ih _ (rangeOverride_sound acc acc0 vars acc1 hacc (hdist _ _ _ hl) ho).2
 
 /-! ### value-less entries resolved while loading -/
 
